@@ -321,6 +321,18 @@ func fnKey(cl *Closure) string {
 	return cl.Text
 }
 
+func nodesHaveFunc(ns []*Node) bool {
+	for _, n := range ns {
+		if n == nil {
+			continue
+		}
+		if n.Kind == NFunc || nodesHaveFunc(n.K) || nodesHaveFunc(n.Body) || nodesHaveFunc(n.Else) {
+			return true
+		}
+	}
+	return false
+}
+
 func funcText(n *Node) string {
 	var sb strings.Builder
 	sb.WriteString("(" + strings.Join(n.Params, ",") + ")")
@@ -527,6 +539,14 @@ func Binary(op string, l, r Value) Value {
 		if containsFunc(l) || containsFunc(r) {
 			// functions have no documented order (C12 checks that whatever order there is, is coherent)
 			return Err("unsupported: ordering functions")
+		}
+	}
+	switch op {
+	case "==", "!=":
+		if l.Kind == KFunc && r.Kind == KFunc && l.Fn != r.Fn && l.Fn != nil && r.Fn != nil && (nodesHaveFunc(l.Fn.Body) || nodesHaveFunc(r.Fn.Body)) {
+			// two different function values whose bodies hold function literals: the implementation compares printed
+			// texts, in which a nested `func() { }` and `() => { }` differ; there is no documented equality to model
+			return Err("unsupported: equality of functions holding function literals")
 		}
 	}
 	switch op {
